@@ -16,7 +16,7 @@ REQUIRED = ["imager: state after history == fresh estimator fitted on the last d
             "landscaper: fit_transform == fit then transform (fresh twin)", "landscaper: transform repeatable, state untouched"]
 RULE = ("histories of 2-8 calls on one live estimator drawn from fit / transform / fit_transform (imager: interleaved pixel_size / "
         "birth_range / pers_range assignments = parameters the user fixes; landscaper: any subset of {start, stop} fixed in the "
-        "constructor, hom_deg 0/1, flatten) over diagram collections with different extents (second fit on narrower and on wider "
+        "constructor, hom_deg 0/1, flatten) over diagram collections (a quarter of them containing the same array object more than once, as a resample with replacement does) with different extents (second fit on narrower and on wider "
         "data). Reference model = a brand-new estimator built with the same user-fixed parameters and fitted on the last fit's "
         "data. non-trivial = history with >=2 fits on data of different extents followed by a transform; distinct = history digest")
 ASSUMPTIONS = ["imager outputs compared at 1e-9*scale (each setter call re-pads the ranges by ~1e-17); landscaper outputs exactly",
@@ -55,6 +55,13 @@ def gen_dataset(rng, lo, hi, pmax, k=None, degenerate=None):
         out.append(np.column_stack([b, b + p]))
     # pin the extent so that it really differs between datasets
     out[0][0] = [lo, lo + 0.05 * pmax]; out[0][1] = [hi, hi + pmax]
+    if len(out) >= 2 and rng.random() < 0.25:
+        # a bootstrap resample / `[d] * k`: the very same array object occurs more than once in the collection
+        for _ in range(int(rng.integers(1, 3))):
+            i, j = int(rng.integers(0, len(out))), int(rng.integers(1, len(out)))
+            out[j] = out[i]
+        if rng.random() < 0.3:
+            out = out + [out[0]] * int(rng.integers(1, 3))
     return out
 
 
